@@ -19,7 +19,14 @@ RULE = (
     "higher-rank arguments, dangling indices); streams: ip (one partial step), ipip (two chained steps, second full or "
     "partial), inst (raw Instantiator incl. allow_partial), cvi, pma (with and without an outer mono context), rm, tv/cv. "
     "Non-trivial = at least one kept and one instantiated parameter (ip/ipip/pma), resp. a list with both kinds of entries; "
-    "distinct by canonical request line"
+    "distinct by canonical request line. PROGRAM LEVEL (c13_prog.py): random modules with a fixed pool of generic callees "
+    "(ident, identl, identc, swap, head over array[E, n], scale with a @comptime parameter, apply + explicit type application -> "
+    "LoadFunc) and 2-5 generic callers whose parameters interleave kept type variables (copy+drop, linear, affine, "
+    "copy-non-drop), nat variables of array types and monomorphization-forcing parameters (`x: T @comptime`, int/bool/float/nat "
+    "@comptime) at random positions; half of the callers are siblings of an earlier one (same variables at the same Guppy "
+    "indices, different kept/monomorphized layout); type variable names are shared between callers; a monomorphic entry calls "
+    "every caller at 1-3 instantiations in random order, all lowered in ONE CompilerContext; non-trivial program = >= 2 callers "
+    "and >= 1 monomorphized parameter"
 )
 ASSUMPTIONS = [
     "the Lean model Model/Instantiate.lean is hand-written; agreement with tys/ty.py, tys/subst.py, tys/param.py, tys/const.py, "
@@ -30,9 +37,12 @@ ASSUMPTIONS = [
     "i-th parameter only mentions parameters < i (hypothesis Scoped of the composition theorems)",
 ]
 UNMODELLED = [
-    "runtime equality of a generic program and its hand-specialised copy (needs an emulator for /repo output: none exists)",
-    "validity of the HUGR produced for (partially) monomorphized functions (to_hugr_poly, CheckedFunctionDef.monomorphize, "
-    "CompiledFunctionDef.compile_inner): only the index arithmetic of type_var_to_hugr/const_var_to_hugr is modelled",
+    "runtime equality of a generic program and its hand-specialised copy is only SAMPLED (program-level tie: both are lowered by "
+    "/repo and run on harness/hugr_interp.py, and compared with CPython on the generic source), not proved; the interpreter's op "
+    "semantics are an assumption (notes/INTERP.md)",
+    "validity of the HUGR of (partially) monomorphized functions is checked on sampled programs by an independent oracle "
+    "(type-variable scoping and kinds, Call/LoadFunc instantiation = callee signature at the type args, wire types); in the Lean "
+    "model only the index arithmetic (partially_monomorphize_args, compile_variable_idx) is covered",
     "FunctionType.unitary_flags (dropped by FunctionType.transform and instantiate_partial in /repo)",
     "check_all_args / ConstParam.check_arg (kinding of instantiations is the checker's job; the model is kind-agnostic like the code)",
     "input names of FuncInput (compare=False)",
@@ -47,9 +57,12 @@ MANIFEST = {
     "const parameter and every parameter occurring in a non-nat const parameter's type is monomorphized and nothing else is. "
     "The hand-written model is tied to /repo on every run by same-input correspondence on random signatures; independent "
     "Python oracles (simultaneous substitution on S-expression trees, composition law under real ==, definitional oracles) "
-    "check the property on the real code.",
-    "level_note": "Partial: runtime equality of generic vs specialised programs and HUGR validity are not modelled (no emulator / "
-    "validator for /repo output). Composition theorems need closed, rank-1 instantiation arguments and a closed signature; each "
+    "check the property on the real code. Program level: generated modules of generic callers with different monomorphization "
+    "layouts calling shared generic callees are lowered by /repo in one compilation; an independent oracle checks the lowered Hugr, "
+    "the model (pma, cvi) must predict the mono args of every lowered instance and the HUGR type arguments of every call site, and "
+    "the generic program, its hand-specialised textual copy (both run on the reference Hugr interpreter) and CPython must agree.",
+    "level_note": "Partial: runtime equality of generic vs specialised programs and HUGR well-formedness are sampled on generated "
+    "programs (reference interpreter / structural oracle), not proved. Composition theorems need closed, rank-1 instantiation arguments and a closed signature; each "
     "hypothesis is shown necessary by a machine-checked counterexample. Trusted: Lean kernel + propext/Classical.choice/Quot.sound, "
     "the statement, the correspondence harness (sampling).",
     "technique": "Lean 4 proof over a hand-written model + differential correspondence with the real classes",
@@ -789,6 +802,8 @@ def _corpus():
         for fn in sorted(os.listdir(d)):
             if fn.endswith(".json"):
                 for c in json.load(open(os.path.join(d, fn))):
+                    if "request" not in c:
+                        continue  # program-level corpus entries are handled by _prog_tie
                     out.append({"req": P(c["request"]), "kind": "corpus:" + c.get("kind", fn), "nt": True,
                                 "expect": c.get("expect")})
     return out
@@ -855,6 +870,314 @@ def o_composition_expected(req):
         return None
 
 
+
+# ---------------------------------------------------------------------------- program-level tie
+RT_INPUTS = [(3, 2.5, True), (-2, 0.5, False), (0, -1.25, True)]
+
+
+def _lower_outcome(src, entry="entry", keep_ctx=False):
+    """('rejected', msg) | ('crash', msg) | ('ok', module, g, cctx)"""
+    import c13_prog as PG
+    import feed
+    try:
+        m = feed.load(src)
+    except Exception as e:  # noqa: BLE001
+        return ("rejected", f"load: {type(e).__name__}: {e}")
+    defn = getattr(m, entry)
+    k, e = feed.check_outcome(defn)
+    if k != "ok":
+        return ("rejected", f"{k}: {feed.err_class(e)}")
+    try:
+        g, cctx = PG.lower_with_ctx(defn)
+    except RecursionError:
+        raise
+    except BaseException as e:  # noqa: BLE001
+        return ("crash", f"{type(e).__name__}: {str(e)[:200]}")
+    return ("ok", m, g, cctx)
+
+
+def _prog_problems(src, entry="entry"):
+    """oracle verdict on a program source: list of problems of its lowering (empty = fine / not accepted)"""
+    import c13_prog as PG
+    r = _lower_outcome(src, entry)
+    if r[0] == "rejected":
+        return []
+    if r[0] == "crash":
+        return ["lowering crashed although the checker accepted the program: " + r[1]]
+    return PG.check_hugr(r[2].hugr)
+
+
+def _shrink(prog):
+    """drop callers / entry calls while the oracle still reports a problem"""
+    import c13_prog as PG
+    cur = prog
+    budget = 24
+    changed = True
+    while changed and budget > 0:
+        changed = False
+        for c in list(cur["callers"]):
+            if len(cur["callers"]) <= 1 or budget <= 0:
+                break
+            cand = PG.restrict(cur, {x["name"] for x in cur["callers"]} - {c["name"]})
+            budget -= 1
+            if cand["calls"] and _prog_problems(PG.render(cand)):
+                cur, changed = cand, True
+        for i in range(len(cur["calls"]) - 1, -1, -1):
+            if len(cur["calls"]) <= 1 or budget <= 0:
+                break
+            cand = PG.restrict(cur, {x["name"] for x in cur["callers"]}, set(range(len(cur["calls"]))) - {i})
+            cand["callers"] = [c for c in cand["callers"] if any(k["caller"] == c["name"] for k in cand["calls"])]
+            budget -= 1
+            if _prog_problems(PG.render(cand)):
+                cur, changed = cand, True
+    return cur
+
+
+def _garg(d, pby):
+    """real Guppy argument for a type descriptor of the generator, in the caller's parameter context"""
+    from guppylang_internals.tys import builtin as B
+    from guppylang_internals.tys.arg import TypeArg
+    if d[0] == "tv":
+        return pby[d[1]].to_bound()
+    if d[0] == "c":
+        return TypeArg({"int": B.int_type, "float": B.float_type, "bool": B.bool_type, "nat": B.nat_type}[d[1]]())
+    raise ValueError(d)
+
+
+def _call_sites(c, pby, callee_params):
+    """[(hugr op kind, callee name, [real Guppy type args in the callee's parameter order])] of caller c"""
+    from guppylang_internals.tys import builtin as B
+    from guppylang_internals.tys.arg import ConstArg
+    from guppylang_internals.tys.const import ConstValue
+    out = []
+
+    def site(kind, nm, by_name):
+        out.append((kind, nm, [by_name[p.name] for p in callee_params[nm]]))
+
+    for s in c["stmts"]:
+        op = s["op"]
+        if op == "natval":
+            continue
+        v = _garg(s["v"]["ty"], pby) if s["v"]["ty"][0] != "arr" else None
+        if op in ("ident", "discard", "tup"):
+            site("Call", "ident", {"Q": v})
+        elif op == "identl":
+            site("Call", "identl", {"L": v})
+        elif op == "identc":
+            site("Call", "identc", {"C": v})
+        elif op == "swap":
+            site("Call", "swap", {"A": v, "B": _garg(s["w"]["ty"], pby)})
+        elif op == "head":
+            ty = s["v"]["ty"]
+            site("Call", "head", {"E": _garg(ty[1], pby), "cn": pby[ty[2][1]].to_bound()})
+        elif op == "scale":
+            site("Call", "scale", {"k": ConstArg(ConstValue(B.int_type(), s["k"])), "Q": v})
+        elif op == "apply":
+            site("LoadFunc", "ident", {"Q": v})
+            site("Call", "apply", {"A": v, "B": v})
+    return out
+
+
+def _entry_args(c, k, params):
+    """real Guppy type arguments of the entry's call `k` of caller `c` (parameter order of the real signature)"""
+    import ast
+    from guppylang_internals.tys import builtin as B
+    from guppylang_internals.tys.arg import ConstArg, TypeArg
+    from guppylang_internals.tys.const import ConstValue
+    from guppylang_internals.tys.param import TypeParam
+    conc = {"int": B.int_type, "float": B.float_type, "bool": B.bool_type, "nat": B.nat_type}
+    ct = {a["name"]: (a, v) for a, v in zip(c["args"], k["vals"]) if a["mode"] == "comptime"}
+    args = []
+    for p in params:
+        if isinstance(p, TypeParam):
+            args.append(TypeArg(conc[k["tmap"][p.name][1]]()))
+        elif p.name in k["nmap"]:
+            args.append(ConstArg(ConstValue(B.nat_type(), k["nmap"][p.name])))
+        else:
+            a, v = ct[p.name]
+            ty = a["ty"] if a["ty"][0] == "c" else k["tmap"][a["ty"][1]]
+            args.append(ConstArg(ConstValue(conc[ty[1]](), ast.literal_eval(v))))
+    return args
+
+
+def _prog_tie(ctx):
+    """generated multi-caller programs lowered in one CompilerContext: Hugr oracle, model tie, runtime"""
+    import c13_prog as PG
+    import feed
+    import hugr.ops as ops
+    import hugr_interp as hi
+    import tysexp as X
+    from guppylang_internals.engine import ENGINE
+
+    # fixed programs (corpus) ------------------------------------------------------------------
+    d = os.path.join(vlib.VERIF, "corpus", "c13")
+    fixed = []
+    if os.path.isdir(d) and not os.environ.get("C13_NO_CORPUS"):
+        for fn in sorted(os.listdir(d)):
+            if fn.endswith(".json"):
+                fixed += [c for c in json.load(open(os.path.join(d, fn))) if "source" in c]
+    if ctx.replay_in and "source" in ctx.replay_in.get("replay", {}):
+        r = ctx.replay_in["replay"]
+        fixed.append({"source": r["source"], "entries": [r.get("entry", "entry")], "kind": "replay"})
+    for c in fixed:
+        for entry in c["entries"]:
+            probs = _prog_problems(c["source"], entry)
+            ctx.count("prog:" + PG.src_hash(c["source"]) + ":" + entry, nontrivial=True, kind="prog:corpus:" + ("bad" if probs else "ok"))
+            if probs:
+                ctx.violation("prog:" + PG.src_hash(c["source"] + entry), f"fixed program `{c.get('kind', '')}` entry {entry}: {probs[0][:400]}",
+                              {"source": c["source"], "entry": entry, "problems": probs[:10]})
+
+    # generated programs -----------------------------------------------------------------------
+    n_prog = ctx.n(40, 600)
+    pend = []          # caller instances awaiting the model rounds
+    unsupported = 0
+    for _ in range(n_prog):
+        prog = PG.gen_program(ctx.rng)
+        src = PG.render(prog)
+        r = _lower_outcome(src)
+        n_mono = sum(1 for c in prog["callers"] if any(a["mode"] == "comptime" and a["ty"] != ("c", "nat") for a in c["args"]))
+        nt = n_mono >= 1 and len(prog["callers"]) >= 2
+        if r[0] == "rejected":
+            ctx.count("prog:" + PG.src_hash(src), nontrivial=False, kind="prog:rejected")
+            ctx.broke("program generator produced a program the checker rejects (" + r[1] + "):\n" + src[:1500])
+            continue
+        probs = ["lowering crashed although the checker accepted the program: " + r[1]] if r[0] == "crash" \
+            else PG.check_hugr(r[2].hugr)
+        ctx.count("prog:" + PG.src_hash(src), nontrivial=nt, kind="prog:" + ("ok" if not probs else "bad"))
+        if probs:
+            small = _shrink(prog)
+            ssrc = PG.render(small)
+            sprobs = _prog_problems(ssrc) or probs
+            ctx.violation("prog:" + PG.src_hash(ssrc),
+                          f"generic callers lowered in one compilation give an ill-formed Hugr: {sprobs[0][:500]}",
+                          {"source": ssrc, "entry": "entry", "problems": sprobs[:10], "original_source": src,
+                           "callers": len(small["callers"]), "calls": len(small["calls"])})
+            continue
+        _m, g, cctx = r[1], r[2], r[3]
+        h = g.hugr
+        # ---- runtime: generic vs hand-specialised copy vs CPython
+        try:
+            shape = PG.ret_shape(prog)
+            ssrc = PG.render(prog, "spec")
+            r2 = _lower_outcome(ssrc)
+            if r2[0] != "ok":
+                ctx.broke("hand-specialised copy is not accepted / does not lower (" + r2[1] + "):\n" + ssrc[:1500])
+            else:
+                for args in RT_INPUTS[: ctx.n(2, 3)]:
+                    og = hi.run(h, "entry", list(args), ret_shape=shape).outcome()
+                    osp = hi.run(r2[2].hugr, "entry", list(args), ret_shape=shape).outcome()
+                    try:
+                        opy = ("value", PG.run_python(prog, args))
+                    except Exception as e:  # noqa: BLE001
+                        opy = ("pyerror", type(e).__name__)
+                    ctx.bump("prog:runtime-compared")
+                    if repr(og) != repr(osp) or repr(og) != repr(opy):
+                        ctx.violation("prog-rt:" + PG.src_hash(src) + repr(args),
+                                      f"generic program, its hand-specialised copy and CPython disagree on entry{args}: "
+                                      f"generic={og!r} specialised={osp!r} python={opy!r}"[:900],
+                                      {"source": src, "specialised_source": ssrc, "entry": "entry", "args": list(args),
+                                       "generic": repr(og), "specialised": repr(osp), "python": repr(opy)})
+        except (hi.Unsupported, hi.OutOfFuel) as e:
+            unsupported += 1
+            ctx.bump("prog:interp-" + type(e).__name__)
+        # ---- model tie data
+        callee_params = {nm: list(ENGINE.get_checked(getattr(_m, nm).id).ty.params) for nm in PG_CALLEES}
+        by = {c["name"]: c for c in prog["callers"]}
+        seen = set()
+        for k in prog["calls"]:
+            c = by[k["caller"]]
+            cdef = ENGINE.get_checked(getattr(_m, c["name"]).id)
+            params = list(cdef.ty.params)
+            args = _entry_args(c, k, params)
+            key = (c["name"], X.args_sexp(args))
+            if key in seen:
+                continue
+            seen.add(key)
+            real_keys = {X.args_sexp(mk[1]): v for mk, v in cctx.compiled.items() if mk[0] == cdef.id and mk[1] is not None}
+            pend.append({"caller": c, "params": params, "args": args, "real_keys": real_keys, "hugr": h, "src": src,
+                         "callee_params": callee_params})
+    ctx.extra["prog_interp_unsupported"] = unsupported
+
+    # ---- model round 1: mono args of every lowered caller instance (Lean `pma`, outer context = the entry's `()`)
+    lines = ["(pma (" + " ".join(X.param_sexp(p) for p in v["params"]) + ") " + X.args_sexp(v["args"]) + " ())" for v in pend]
+    rep = ctx.driver(DRIVER, lines) if lines else []
+    lines2, owner = [], []
+    for v, line, m in zip(pend, lines, rep):
+        v["ok"] = False
+        if not m.startswith("("):
+            ctx.broke(f"model rejects the monomorphization of a lowered caller instance: {line[:300]} -> {m}")
+            continue
+        mt = P(m)
+        mono = S(mt[0])
+        if mono not in v["real_keys"]:
+            ctx.broke(f"mono args of caller {v['caller']['name']}: model {mono[:200]} is not among the lowered instances "
+                      f"{sorted(v['real_keys'])[:3]} ({line[:200]})")
+            continue
+        v["ok"], v["mono"], v["n_rem"] = True, mono, len(mt[1])
+        pby = {p.name: p for p in v["params"]}
+        v["sites"] = _call_sites(v["caller"], pby, v["callee_params"])
+        for i in range(len(v["params"])):
+            lines2.append(f"(cvi {i} {mono})")
+            owner.append((v, "cvi", i))
+        for j, (kind, nm, gargs) in enumerate(v["sites"]):
+            lines2.append("(pma (" + " ".join(X.param_sexp(p) for p in v["callee_params"][nm]) + ") " + X.args_sexp(gargs) + " " + mono + ")")
+            owner.append((v, "site", j))
+    # ---- model round 2: HUGR index of every kept variable (`cvi`) and the remaining type args of every call site
+    rep2 = ctx.driver(DRIVER, lines2) if lines2 else []
+    for (v, what, j), m in zip(owner, rep2):
+        if what == "cvi":
+            v.setdefault("cvi", {})[j] = m
+        else:
+            v.setdefault("site_rem", {})[j] = m
+    n_inst = n_sites = 0
+    for v in pend:
+        if not v.get("ok"):
+            continue
+        h = v["hugr"]
+        comp = v["real_keys"][v["mono"]]
+        node = comp.func_def.parent_node
+        n_inst += 1
+        ctx.count("prog-inst:" + PG.src_hash(v["src"]) + v["caller"]["name"] + v["mono"], nontrivial="-" in v["mono"] and "(ty" in v["mono"] or "(const" in v["mono"], kind="prog:instance")
+        if len(h[node].op.params) != v["n_rem"]:
+            ctx.broke(f"caller {v['caller']['name']} mono {v['mono'][:120]}: lowered FuncDefn has {len(h[node].op.params)} "
+                      f"type params, model rem_args has {v['n_rem']}")
+            continue
+
+        def cvi(i, v=v):
+            return v["cvi"].get(i, "ERR")
+
+        exp = []
+        for j, (kind, nm, _ga) in enumerate(v["sites"]):
+            m = v["site_rem"].get(j, "error")
+            if not m.startswith("("):
+                exp.append((kind, nm, ["model:" + m]))
+            else:
+                exp.append((kind, nm, [PG.model_arg_canon(a, cvi) for a in P(m)[1]]))
+        real = []
+        for n in h:
+            op = h[n].op
+            if not isinstance(op, ops.Call | ops.LoadFunc):
+                continue
+            q = n
+            while q is not None and not isinstance(h[q].op, ops.FuncDefn):
+                q = h[q].parent
+            if q != node:
+                continue
+            callee = [src[0].node for _ip, src in h.incoming_links(n) if isinstance(h[src[0].node].op, ops.FuncDefn)]
+            cname = h[callee[0]].op.f_name if callee else "?"
+            if cname in PG_CALLEES:
+                real.append((type(op).__name__, cname, [PG.hugr_arg_canon(PG.J(a)) for a in op.type_args]))
+        n_sites += len(exp)
+        if sorted(real) != sorted(exp):
+            ctx.broke(f"HUGR type args of the call sites of caller {v['caller']['name']} (mono {v['mono'][:120]}): "
+                      f"real {sorted(real)[:6]} vs model (pma+cvi) {sorted(exp)[:6]}")
+    ctx.extra["prog_instances_tied"] = n_inst
+    ctx.extra["prog_call_sites_tied"] = n_sites
+
+
+PG_CALLEES = ("ident", "identl", "identc", "swap", "head", "scale", "apply")
+
+
 # ---------------------------------------------------------------------------- tie
 def tie(ctx):
     rd = Reader()
@@ -902,6 +1225,7 @@ def tie(ctx):
             inst0_lines.append(S(["inst0", req[2], req[3]]))
             inst0_idx.append(real)
     ctx.extra["oracle_evaluations"] = n_orc
+    _prog_tie(ctx)
     # informational: the shared Ty.inst (Model/Ty.lean, owned by another property) against the real Instantiator
     if inst0_lines:
         rep = ctx.driver(DRIVER, inst0_lines)
